@@ -903,9 +903,9 @@ class ModuleVistor(NodeVisitor):
                 if isinstance(parent, model.Class):
                     if deco_name[-1].endswith('property') or deco_name[-1].endswith('Property'):
                         is_property = True
-                    elif deco_name == ['classmethod']:
+                    elif deco_name in (['classmethod'], ['builtins', 'classmethod']):
                         is_classmethod = True
-                    elif deco_name == ['staticmethod']:
+                    elif deco_name in (['staticmethod'], ['builtins', 'staticmethod']):
                         is_staticmethod = True
                     elif len(deco_name) >= 2 and deco_name[-1] in ('setter', 'deleter'):
                         # Rename the setter/deleter, so it doesn't replace
